@@ -17,6 +17,7 @@ Bounded-exhaustive enumeration:
 from __future__ import annotations
 
 import itertools
+import json
 import os
 import re
 
@@ -465,7 +466,9 @@ def form_cases():
                             for type_first in (False, True):
                                 if ft is None and type_first:
                                     continue
-                                yield (kind, pre, ft, res, n, order, type_first)
+                                # documentation placement: only with the dummies declared in order (keeps the product small)
+                                for doc in (("none", "before", "after", "trailing") if order == "in_order" else ("none",)):
+                                    yield (kind, pre, ft, res, n, order, type_first, doc)
 
 
 def form_case(case, acc: Acc):
@@ -473,7 +476,7 @@ def form_case(case, acc: Acc):
     whose type is part of the FUNCTION statement (before or after the other prefixes) with and without RESULT, dummy
     arguments declared in another order than the argument list or jointly in one statement: hover lists the dummies in
     *argument-list* order, each with its own declaration, and a function's result with its type."""
-    kind, pre, ft, res, n, order, type_first = case
+    kind, pre, ft, res, n, order, type_first, doc = case
     args = [f"arg{i}" for i in range(n)]
     rname = "res" if res else "target_proc"
     words = list(pre)
@@ -481,8 +484,12 @@ def form_case(case, acc: Acc):
         words = ([ft] + words) if type_first else (words + [ft])
     head = "  " + " ".join(words + [kind]) + " target_proc(" + ", ".join(args) + ")" + (" result(res)" if res else "")
     L = ["module pm", "  implicit none", "  type :: pt", "    integer :: c", "  end type pt", "contains"]
+    if doc == "before":
+        L.append("  !> documentation of the procedure")
     pl = len(L)
-    L.append(head)
+    L.append(head + ("  !! documentation of the procedure" if doc == "trailing" else ""))
+    if doc == "after":
+        L.append("    !! documentation of the procedure")
     dtype = "real(8), intent(in)"
     want = [norm(f"{dtype} :: {a}") for a in args]
     if order == "in_order":
@@ -519,8 +526,8 @@ def form_case(case, acc: Acc):
     s = Server([])
     s.initialize(root)
     r = s.result("textDocument/hover", Server.tdpp(path, pl, L[pl].index("target_proc") + 3))
-    acc.case(nontrivial_key=repr(case), outcome=(kind, len(pre), bool(ft), res, n, order))
-    tags0 = {"family": "procedure_forms", "kind": kind, "prefixes": "+".join(pre), "typed": ft or "", "result": res, "order": order}
+    acc.case(nontrivial_key=repr(case), outcome=(kind, len(pre), bool(ft), res, n, order, doc))
+    tags0 = {"family": "procedure_forms", "kind": kind, "prefixes": "+".join(pre), "typed": ft or "", "result": res, "order": order, "doc": doc}
     cs = {"case": repr(case), "text": text}
     if not (isinstance(r, dict) and isinstance(r.get("contents"), dict)):
         acc.violation(Violation("procedure_forms", {**tags0, "obs": "no_hover"}, cs, "a hover", r, what=f"{head.strip()}: {r}"))
@@ -543,11 +550,119 @@ def form_case(case, acc: Acc):
     got = [norm(c) for c in code[1:1 + n]]
     if got != want:
         acc.violation(Violation("procedure_forms", {**tags0, "obs": "dummy_declarations"}, cs, want, got, what=f"{head.strip()!r} dummies declared {order}: {got}"))
+    # the documentation block belongs to the procedure and to nothing else: shown once, as the procedure's own text
+    docs = (m.group("docs") or "") if m else ""
+    own = docs.split("**Parameters:**")[0].split("**Return:**")[0]
+    if doc != "none" and (docs.count("documentation of the procedure") != 1 or "documentation of the procedure" not in own):
+        acc.violation(Violation("procedure_forms", {**tags0, "obs": "documentation"}, cs, "the block, once, as the procedure's documentation", docs[:200],
+                                what=f"{head.strip()!r} with a documentation block {doc}: shown as {docs[:120]!r}"))
+    if doc == "none" and docs.strip():
+        acc.violation(Violation("procedure_forms", {**tags0, "obs": "documentation"}, cs, "", docs[:200], what=f"{head.strip()!r}: documentation from nowhere {docs[:80]!r}"))
+    if kind == "function" and doc != "none":
+        # the result variable has no documentation of its own
+        bl = next(i for i, x in enumerate(L) if x.strip().startswith(rname + " =") or x.strip().startswith(rname + "%c ="))
+        r2 = s.result("textDocument/hover", Server.tdpp(path, bl, L[bl].index(rname) + 1))
+        v2 = r2["contents"]["value"] if isinstance(r2, dict) and isinstance(r2.get("contents"), dict) else ""
+        # (for a function without RESULT the name is the function itself: its hover carries the documentation)
+        if res and "documentation of the procedure" in v2:
+            acc.violation(Violation("procedure_forms", {**tags0, "obs": "documentation_on_result"}, cs, "no documentation on the result variable", v2[:200],
+                                    what=f"{head.strip()!r} with a documentation block {doc}: the result variable shows it"))
     if kind == "function":
         rest = [norm(c) for c in code[1 + n:]]
         typed_in_first = ft is not None and norm(ft) in norm(mm.group("pre"))
         if norm(f"{rtype} :: {rname}") not in rest and not typed_in_first:
             acc.violation(Violation("procedure_forms", {**tags0, "obs": "result_declaration"}, cs, f"{rtype} :: {rname}", code[1 + n:], what=f"{head.strip()!r}: result shown as {code[1 + n:]}"))
+
+
+# ------------------------------------------------------- type statements
+TYPE_ATTRS = [(), ("public",), ("private",), ("abstract",), ("bind(c)",), ("extends(base_t)",), ("public", "abstract"), ("abstract", "private"),
+              ("bind(c)", "public"), ("public", "bind(c)"), ("extends(base_t)", "public"), ("private", "extends(base_t)"),
+              ("abstract", "extends(base_t)", "public")]
+
+
+def type_case(attrs, acc: Acc):
+    """Hover on a derived-type definition restates the attributes of its TYPE statement."""
+    L = ["module tm", "  implicit none", "  type, abstract :: base_t", "    integer :: b", "  end type base_t"]
+    pl = len(L)
+    L.append("  type" + "".join(", " + a for a in attrs) + " :: target_t")
+    L += ["    integer :: c", "  end type target_t", "end module tm"]
+    text = "\n".join(L) + "\n"
+    sc = worker_scratch("c11")
+    sc.wipe()
+    root = os.path.realpath(sc.path)
+    path = os.path.join(root, "t.f90")
+    with open(path, "w") as f:
+        f.write(text)
+    s = Server([])
+    s.initialize(root)
+    r = s.result("textDocument/hover", Server.tdpp(path, pl, L[pl].index("target_t") + 2))
+    acc.case(nontrivial_key=attrs, outcome=attrs)
+    tags = {"family": "type_statements", "attrs": "+".join(attrs)}
+    cs = {"attrs": list(attrs), "text": text}
+    m = HOVER_RE.match(r["contents"]["value"]) if isinstance(r, dict) and isinstance(r.get("contents"), dict) else None
+    first = m.group("code").split("\n")[0] if m else ""
+    left, _, name = first.partition("::")
+    got = sorted(norm(x) for x in left.split(",")[1:])
+    if not m or norm(left.split(",")[0]) != "TYPE" or norm(name) != "TARGET_T" or got != sorted(norm(a) for a in attrs):
+        acc.violation(Violation("type_statements", {**tags, "obs": "attributes"}, cs, L[pl].strip(), first, what=f"{L[pl].strip()!r} hovers as {first!r}"))
+
+
+# ------------------------------------------------- documentation at the edges
+def edge_doc_cases():
+    for nl in (1, 2, 3):
+        for final_newline in (True, False):
+            for style in ("block_after", "trailing"):
+                if style == "trailing" and nl > 1:
+                    continue
+                yield ("eof", nl, final_newline, style)
+    for defined in (False, True):
+        for style in ("after", "before", "trailing"):
+            yield ("inactive_branch", defined, style)
+
+
+def edge_doc_case(case, acc: Acc):
+    """A documentation block that ends the file (with or without a final line break); documentation lines inside an
+    inactive preprocessor branch document nothing."""
+    sc = worker_scratch("c11")
+    sc.wipe()
+    root = os.path.realpath(sc.path)
+    tags = {"family": "edge_docs", "kind": case[0], "style": case[-1]}
+    if case[0] == "eof":
+        _, nl, final_newline, style = case
+        if style == "trailing":
+            text = "module em\n  integer :: other\nend module em\ninteger :: v !! line 1"
+        else:
+            text = "module em\n  integer :: other\nend module em\ninteger :: v\n" + "\n".join(f"!! line {i + 1}" for i in range(nl))
+        text += "\n" if final_newline else ""
+        path = os.path.join(root, "e.f90")
+        want = [f"line {i + 1}" for i in range(nl)]
+        probes = [("v", 3, want), ("other", 1, [])]
+        argv = []
+    else:
+        _, defined, style = case
+        dl = {"after": ["  integer :: b", "  !! doc of b only"], "before": ["  !> doc of b only", "  integer :: b"], "trailing": ["  integer :: b !! doc of b only"]}[style]
+        L = ["module pm", "  integer :: a", "#ifdef XDEF"] + dl + ["#endif", "  integer :: c", "end module pm"]
+        text = "\n".join(L) + "\n"
+        path = os.path.join(root, "e.F90")
+        probes = [("a", 1, []), ("c", L.index("  integer :: c"), [])]
+        if defined:
+            probes.append(("b", next(i for i, x in enumerate(L) if "integer :: b" in x), ["doc of b only"]))
+        argv = ["--pp_defs", json.dumps({"XDEF": "1"})] if defined else []
+    with open(path, "w") as f:
+        f.write(text)
+    s = Server(argv)
+    s.initialize(root)
+    lines = text.split("\n")
+    for name, ln, want in probes:
+        r = s.result("textDocument/hover", Server.tdpp(path, ln, lines[ln].index(":: " + name) + 3))
+        v = r["contents"]["value"] if isinstance(r, dict) and isinstance(r.get("contents"), dict) else ""
+        m = HOVER_RE.match(v)
+        docs = (m.group("docs") or "") if m else ""
+        acc.case(nontrivial_key=(case, name), outcome=(case[0], bool(want)))
+        ok = all(w in docs for w in want) and (want or not docs.strip())
+        if not m or not ok:
+            acc.violation(Violation("edge_docs", {**tags, "entity": name, "obs": "documentation"}, {"case": repr(case), "text": text, "entity": name}, want, docs[:200],
+                                    what=f"{case}: hover on {name} shows documentation {docs[:80]!r}, expected {want}"))
 
 
 # ------------------------------------------------------------------- signature
@@ -860,6 +975,11 @@ def main(ctx):
     ctx.add_family("procedure_forms", facc, what="PURE/ELEMENTAL/RECURSIVE/IMPURE prefixes x function type in the FUNCTION statement (7 types, before or after the "
                    "other prefixes) x RESULT clause x 1-3 dummies declared in order / reversed / jointly: dummies listed in argument-list order each with "
                    "its own declaration, the result with its type")
+    yacc = core.pmap(type_case, TYPE_ATTRS, chunk=2, budget_s=120, label="C11/types")
+    ctx.add_family("type_statements", yacc, what="TYPE statements with 0-3 attributes (PUBLIC, PRIVATE, ABSTRACT, BIND(C), EXTENDS) in several orders: the hover restates the attribute set")
+    eacc = core.pmap(edge_doc_case, list(edge_doc_cases()), chunk=2, budget_s=120, label="C11/edge_docs")
+    ctx.add_family("edge_docs", eacc, what="documentation blocks that end the file (1-3 lines, with / without a final line break, trailing form); documentation lines inside "
+                   "an inactive / active #ifdef branch (before, after, trailing): hover of the neighbours shows none of it")
     sacc = core.pmap(sig_case, CALLS, chunk=1, budget_s=120, label="C11/sig")
     ctx.add_family("signature", sacc)
     tacc = core.pmap(bound_case, [(n, o) for n in BOUND_NAMES for o in ("bound_first", "direct_first")], chunk=1, budget_s=120, label="C11/bound")
@@ -878,6 +998,11 @@ def replay(rec):
         acc.violations = [v for v in acc.violations if v.case["entity"] == c["entity"]]
     elif rec["family"] == "procedures":
         proc_case(eval(c["case"]), acc)
+    elif rec["family"] == "type_statements":
+        type_case(tuple(c["attrs"]), acc)
+    elif rec["family"] == "edge_docs":
+        edge_doc_case(eval(c["case"]), acc)
+        acc.violations = [v for v in acc.violations if v.case["entity"] == c["entity"]]
     elif rec["family"] == "procedure_forms":
         form_case(eval(c["case"]), acc)
     else:
